@@ -277,7 +277,18 @@ fn c17_template(rng: &mut Rng) -> String {
             4 => format!("${{{}}}{}", v, lit),
             5 => format!("${}${}", v, v2),
             6 => format!("${{{}}}${{{}}}", v, v2),
-            7 => "$".to_string(),
+            7 => {
+                if rng.chance(1, 2) {
+                    "$".to_string()
+                } else {
+                    // three variable tokens in one component, braced and unbraced mixed
+                    match rng.below(3) {
+                        0 => format!("${{{}}}${}${}", v, v2, v),
+                        1 => format!("${{{}}}-${}${{{}}}.log", v, v2, v),
+                        _ => format!("{}${}${{{}}}${}${}", lit, v2, v, v2, v),
+                    }
+                }
+            },
             8 => "${}".to_string(),
             9 => format!("{}$", lit),
             _ => "~".to_string(),
@@ -445,11 +456,14 @@ const XDG: &[&str] = &[
     "PATH",
     "SUDO_UID",
     "SUDO_GID",
+    // not an XDG variable: the statement's "runtime_dir falls back to /tmp" holds whatever it says
+    "TMPDIR",
 ];
 
 fn c18_env(rng: &mut Rng) -> Env {
     let mut env = Env::new();
-    let dirs = ["/cfg/a", "/cfg/b", "/cfg/c", "/etc/xdg", "/h/.config", "/opt/x"];
+    // (two spellings that are not clean: a candidate directory is a path like any other)
+    let dirs = ["/cfg/a", "/cfg/b", "/cfg/c", "/etc/xdg", "/h/.config", "/opt/x", "/cfg/x/../a", "/cfg//c/"];
     for k in XDG {
         let v: Option<String> = if k.starts_with("SUDO") {
             match rng.weighted(&[3, 1, 4, 2]) {
